@@ -32,14 +32,22 @@ Fixpoint rmap2 {A B C} (f : A -> B -> res C) (l : list A) (ps : list B) : res (l
   | m :: r, q :: ps' => rbind (f m q) (fun y => rbind (rmap2 f r ps') (fun ys => Ok (y :: ys)))
   | _ :: _, [] => Raised
   end.
-Lemma update_in_mp l ps :
+Lemma update_in_mp fx l ps :
   (fix mp (l : list nt) (ps : list nt) : res (list nt) :=
      match l, ps with
      | [], _ => Ok []
-     | m :: r, q :: ps' => rbind (update_in m q) (fun y => rbind (mp r ps') (fun ys => Ok (y :: ys)))
+     | m :: r, q :: ps' => rbind (update_in_f fx m q) (fun y => rbind (mp r ps') (fun ys => Ok (y :: ys)))
      | _ :: _, [] => Raised
-     end) l ps = rmap2 update_in l ps.
+     end) l ps = rmap2 (update_in_f fx) l ps.
 Proof. revert ps. induction l as [|m r IH]; intros [|q ps]; cbn [rmap2]; try reflexivity. now rewrite IH. Qed.
+
+Lemma update_members_mp fx src l :
+  (fix mp (l : list nt) : res (list nt) :=
+     match l with
+     | [] => Ok []
+     | m :: r => rbind (update_in_f fx m src) (fun y => rbind (mp r) (fun ys => Ok (y :: ys)))
+     end) l = rmap (fun m => update_in_f fx m src) l.
+Proof. induction l as [|m r IH]; cbn [rmap]; [reflexivity|]. now rewrite IH. Qed.
 
 Lemma rmap2_spec {A B C} (f : A -> B -> res C) l : forall ps ys,
   rmap2 f l ps = Ok ys -> length l <= length ps ->
@@ -55,34 +63,70 @@ Proof.
     + eapply A2; eauto.
 Qed.
 
+(* update(inplace) with a NonTensorData source (after the repair of C16-k): every member takes the value as it is — any
+   nesting, members with batch dims included *)
+Lemma update_in_shared dst : forall q s' sh y,
+  wf dst = true -> shape dst = Some sh -> update_in_f true dst (Shared q s') = Ok y ->
+  shape y = Some sh /\ wf y = true /\ forall I, denote y I = denote (Shared q sh) I.
+Proof.
+  induction dst as [p sh0|d l IH] using nt_ind'; intros q s' sh y Hw Hsh H.
+  - cbn [update_in_f] in H. injection H as <-. cbn [shape] in Hsh. injection Hsh as <-. auto.
+  - cbn [update_in_f] in H. rewrite update_members_mp in H.
+    destruct (rmap (fun m => update_in_f true m (Shared q s')) l) as [ys| |] eqn:Er; cbn [rbind] in H; try discriminate.
+    injection H as <-.
+    apply wf_stack in Hw as (m0 & r0 & s & El & Hwf & Hsm & Hd).
+    assert (Hshape : sh = insert_at d (length l) s).
+    { subst l. inversion Hsm; subst. rewrite (shape_stack d m0 r0 s) in Hsh by assumption. now injection Hsh as <-. }
+    assert (Lys : length ys = length l) by (eapply rmap_ok_length; eauto).
+    assert (Hall : Forall (fun y => shape y = Some s /\ wf y = true) ys /\
+                   forall k y, nth_error ys k = Some y -> forall I, denote y I = denote (Shared q s) I).
+    { split.
+      - apply Forall_forall. intros y Hy. apply In_nth_error in Hy as [k Hk].
+        destruct (rmap_ok_nth_inv _ _ _ _ _ Er Hk) as (m & Em & Hm).
+        destruct (Forall_nth_error _ _ _ _ IH Em q s' s y (Forall_nth_error _ _ _ _ Hwf Em) (Forall_nth_error _ _ _ _ Hsm Em) Hm)
+          as (A & B & _). now split.
+      - intros k y Hk I. destruct (rmap_ok_nth_inv _ _ _ _ _ Er Hk) as (m & Em & Hm).
+        destruct (Forall_nth_error _ _ _ _ IH Em q s' s y (Forall_nth_error _ _ _ _ Hwf Em) (Forall_nth_error _ _ _ _ Hsm Em) Hm)
+          as (_ & _ & C). apply C. }
+    destruct Hall as [Hall Hden].
+    assert (Hne : ys <> []). { intros ->. subst l. cbn in Lys. lia. }
+    destruct (stack_of_members d ys s Hne Hall Hd) as [S W].
+    split; [|split; [exact W|]].
+    + rewrite S, Lys. now subst sh.
+    + intros I. rewrite denote_stack. cbn [denote]. subst sh. rewrite in_range_insert by assumption.
+      destruct (nth_error I d) as [k|] eqn:Ek; [|reflexivity].
+      destruct (nth_error ys k) as [y|] eqn:Ey.
+      * rewrite (Hden k y Ey). cbn [denote].
+        assert (k < length l) by (rewrite <- Lys; apply nth_error_Some; congruence).
+        replace (k <? length l) with true by (symmetry; now apply Nat.ltb_lt). reflexivity.
+      * apply nth_error_None in Ey. replace (k <? length l) with false by (symmetry; apply Nat.ltb_ge; lia). reflexivity.
+Qed.
+
 (* update(inplace): the destination keeps its batch shape and takes every object of the source *)
 Theorem update_in_spec dst : forall src sh y,
   wf dst = true -> shape dst = Some sh -> wf src = true -> shape src = Some sh -> update_in dst src = Ok y ->
   shape y = Some sh /\ wf y = true /\ forall I, denote y I = denote src I.
 Proof.
   induction dst as [p sh0|d l IH] using nt_ind'; intros src sh y Hw Hsh Hws Hss H.
-  - cbn [update_in] in H. cbn [shape] in Hsh. injection Hsh as <-. destruct src as [q shq|]; [|discriminate].
+  - unfold update_in in H. cbn [update_in_f] in H. cbn [shape] in Hsh. injection Hsh as <-. destruct src as [q shq|]; [|discriminate].
     injection H as <-. cbn [shape] in Hss. injection Hss as ->. repeat split; auto.
-  - cbn [update_in] in H. rewrite Hsh in H.
+  - destruct src as [q shq|ds ls].
+    { (* a NonTensorData source: handed to the members *)
+      unfold update_in, fixed_C16k in H. cbn [shape] in Hss. injection Hss as ->.
+      exact (update_in_shared (Stack d l) q sh sh y Hw Hsh H). }
+    unfold update_in, fixed_C16k in H. cbn [update_in_f] in H. fold fixed_C16k in H.
+    change (update_in_f fixed_C16k) with update_in in H.
     pose proof Hw as Hw0. apply wf_stack in Hw as (m0 & r0 & s & El & Hwf & Hsm & Hd).
     assert (Hshape : sh = insert_at d (length l) s).
     { subst l. inversion Hsm; subst. rewrite (shape_stack d m0 r0 s) in Hsh by assumption. now injection Hsh as <-. }
     (* the source, rebuilt as a stack when it is a NonTensorData *)
-    assert (Hsrc : exists src', (match src with Shared q _ => expand_shared q sh | Stack _ _ => Ok src end) = Ok src' ->
-                   True) by (exists src; auto). clear Hsrc.
-    destruct (match src with Shared q _ => expand_shared q sh | Stack _ _ => Ok src end) as [src'| |] eqn:Es; cbn [rbind] in H; try discriminate.
-    assert (Hs' : wf src' = true /\ shape src' = Some sh /\ forall I, denote src' I = denote src I).
-    { destruct src as [q shq|ds ls].
-      - cbn [shape] in Hss. injection Hss as ->. repeat split.
-        + eapply expand_shared_wf; eauto.
-        + eapply expand_shared_shape; eauto.
-        + intros I. eapply expand_shared_denote; eauto.
-      - injection Es as <-. auto. }
+    cbn [rbind] in H. set (src' := Stack ds ls) in *.
+    assert (Hs' : wf src' = true /\ shape src' = Some sh /\ forall I, denote src' I = denote src' I) by auto.
     destruct Hs' as (Hws' & Hss' & Hds').
     destruct (unbind d src') as [pieces| |] eqn:Eu; cbn [rbind] in H; try discriminate.
     destruct (negb (Nat.eqb (length pieces) (length l))) eqn:El2; [discriminate|].
     apply negb_false_iff in El2. apply Nat.eqb_eq in El2.
-    rewrite update_in_mp in H. destruct (rmap2 update_in l pieces) as [ys| |] eqn:Er; cbn [rbind] in H; try discriminate.
+    unfold update_in in H. rewrite update_in_mp in H. fold update_in in H. destruct (rmap2 update_in l pieces) as [ys| |] eqn:Er; cbn [rbind] in H; try discriminate.
     injection H as <-.
     assert (Hnd : nth_error sh d = Some (length l)) by (subst sh; now apply nth_error_insert_at).
     destruct (unbind_spec src' d sh (length l) pieces Hws' Hss' Hnd Eu) as [Lp Hp].
@@ -112,7 +156,7 @@ Proof.
     destruct (stack_of_members d ys s Hne Hall Hd) as [S W].
     split; [|split; [exact W|]].
     + rewrite S, Lys. now subst sh.
-    + intros I. rewrite <- Hds'. rewrite denote_stack.
+    + intros I. rewrite denote_stack.
       destruct (nth_error I d) as [k|] eqn:Ek.
       * destruct (nth_error ys k) as [y|] eqn:Ey.
         -- assert (d < length I) by (apply nth_error_Some; congruence).
@@ -386,12 +430,78 @@ Proof.
     + apply nth_error_None in Em. rewrite (proj2 (nth_error_None l' j)) by lia. reflexivity.
 Qed.
 
+(* ---------------- an index made of None only on a member without batch dims *)
+Lemma remove_at_repeat {A} (a : A) k : forall d, d < k -> remove_at d (repeat a k) = repeat a (k - 1).
+Proof.
+  induction k as [|k IH]; intros d H; [lia|]. destruct d as [|d]; cbn [repeat].
+  - rewrite remove_at_0. cbn. now rewrite Nat.sub_0_r.
+  - rewrite remove_at_S, IH by lia. destruct k; [lia|]. cbn. now rewrite Nat.sub_0_r.
+Qed.
+
+Lemma in_range_ones_zeros k : in_range (repeat 1 k) (repeat 0 k) = true.
+Proof. induction k; cbn; auto. Qed.
+
+Lemma squeeze_all_spec v : forall k v', wf v = true -> shape v = Some (repeat 1 k) -> squeeze_all v = Ok v' ->
+  exists q, v' = Shared q [] /\ denote v (repeat 0 k) = Some q.
+Proof.
+  induction v as [q sh|d l IH] using nt_ind'; intros k v' Hw Hs H.
+  - cbn [squeeze_all] in H. injection H as <-. exists q. split; [reflexivity|]. cbn [shape] in Hs. injection Hs as ->.
+    cbn [denote]. now rewrite in_range_ones_zeros.
+  - destruct l as [|m [|m2 r]]; cbn [squeeze_all] in H; try discriminate.
+    apply wf_stack in Hw as (m0 & r0 & s & El & Hwf & Hsm & Hd). injection El as <- <-.
+    inversion Hwf as [|? ? Hwm _]; subst. inversion Hsm as [|? ? Hs_m _]; subst. inversion IH as [|? ? IHm _]; subst.
+    rewrite (shape_stack d m [] s Hs_m Hd) in Hs. injection Hs as Hs. cbn [length] in Hs.
+    assert (Es : s = remove_at d (repeat 1 k)) by (rewrite <- Hs; symmetry; now apply remove_insert_at).
+    assert (Hk : d < k).
+    { assert (L : length (insert_at d 1 s) = k) by (rewrite Hs; apply repeat_length). rewrite length_insert_at in L. lia. }
+    rewrite remove_at_repeat in Es by assumption.
+    assert (Hs' : shape m = Some (repeat 1 (k - 1))) by (now rewrite Hs_m, Es).
+    destruct (IHm (k - 1) v' Hwm Hs' H) as (q & -> & Hq). exists q. split; [reflexivity|].
+    rewrite denote_stack. rewrite nth_error_repeat by assumption. cbn [nth_error]. now rewrite remove_at_repeat.
+Qed.
+
+Lemma none_shape idx : forallb is_none idx = true -> ix_shape idx [] = Some (repeat 1 (length idx)).
+Proof.
+  induction idx as [|it idx IH]; intros H; [reflexivity|]. cbn [forallb] in H. apply andb_true_iff in H as [H1 H2].
+  destruct it; try discriminate. cbn. now rewrite (IH H2).
+Qed.
+
+Lemma none_src idx : forallb is_none idx = true -> forall R I, ix_src idx [] R = Some I -> R = repeat 0 (length idx) /\ I = [].
+Proof.
+  induction idx as [|it idx IH]; intros H R I E.
+  - cbn in E. destruct R; cbn in E; [injection E as <-; auto|discriminate].
+  - cbn [forallb] in H. apply andb_true_iff in H as [H1 H2]. destruct it; try discriminate.
+    destruct R as [|x R]; cbn in E; [discriminate|]. destruct x; cbn in E; [|discriminate].
+    destruct (ix_src idx [] R) as [l|] eqn:E2; cbn in E; [|discriminate]. injection E as <-.
+    destruct (IH H2 R l E2) as [-> ->]. split; reflexivity.
+Qed.
+
+Lemma none_src_zero idx : forallb is_none idx = true -> ix_src idx [] (repeat 0 (length idx)) = Some [].
+Proof.
+  induction idx as [|it idx IH]; intros H; [reflexivity|]. cbn [forallb] in H. apply andb_true_iff in H as [H1 H2].
+  destruct it; try discriminate. cbn. now rewrite (IH H2).
+Qed.
+
 (* ---------------- the lazy __setitem__ on a non-tensor stack writes exactly the addressed positions *)
 Theorem assign_spec x : assign_ok x.
 Proof.
   induction x as [p sh0|d l IH] using nt_ind'; intros idx v sh r y Hw Hsh Hn Hr Hwv Hsv H.
-  - destruct idx as [|it idx]; [|discriminate]. rewrite assign_nil in H. cbn [ix_shape] in Hr. injection Hr as <-.
-    destruct (update_in_spec _ _ _ _ Hw Hsh Hwv Hsv H) as (A & B & C). now apply written_whole.
+  - destruct idx as [|it idx].
+    { rewrite assign_nil in H. cbn [ix_shape] in Hr. injection Hr as <-.
+      destruct (update_in_spec _ _ _ _ Hw Hsh Hwv Hsv H) as (A & B & C). now apply written_whole. }
+    (* a member without batch dims written through None, None, ...: the one element takes the (squeezed) value *)
+    cbn [assign] in H. unfold leaf_newaxis_write, fixed_C16f in H. cbn [orb] in H.
+    cbn [shape] in Hsh. injection Hsh as <-.
+    destruct sh0 as [|? ?]; [|discriminate].
+    destruct (forallb is_none (it :: idx)) eqn:En; [|discriminate].
+    destruct (squeeze_all v) as [v'| |] eqn:Eq; cbn [rbind] in H; try discriminate.
+    rewrite (none_shape _ En) in Hr. injection Hr as <-.
+    destruct (squeeze_all_spec v (length (it :: idx)) v' Hwv Hsv Eq) as (q & -> & Hq).
+    unfold update_in in H. cbn [update_in_f] in H. injection H as <-.
+    repeat split; auto.
+    + intros R I E. destruct (none_src _ En R I E) as [-> ->]. now rewrite Hq.
+    + intros I HI. destruct I as [|i I]; [|reflexivity].
+      exfalso. apply (HI (repeat 0 (length (it :: idx)))). now apply none_src_zero.
   - destruct idx as [|it0 idx0].
     { rewrite assign_nil in H. cbn [ix_shape] in Hr. injection Hr as <-.
       destruct (update_in_spec _ _ _ _ Hw Hsh Hwv Hsv H) as (A & B & C). now apply written_whole. }
